@@ -105,6 +105,9 @@ func c03RandSize(rng *fw.Rand) c03Size {
 		s.mode = "plus"
 	default:
 		s.mode = fmt.Sprintf("x%d", 2+rng.Intn(5))
+		if rng.Intn(12) == 0 {
+			s.mode = "wide" // posters: 33..52 pixels per module (a bar spans several 32-bit words)
+		}
 	}
 	switch k := rng.Intn(10); {
 	case k < 1:
@@ -180,6 +183,13 @@ func (e *c03Env) c03Do(job *c03Job, sz c03Size) bool {
 		case sz.mode[0] == 'x':
 			k := int(sz.mode[1] - '0')
 			width = k*w0 + r.Rng.Intn(w0)
+		case sz.mode == "wide":
+			k := 33 + r.Rng.Intn(20)
+			if w0 > 400 { // very long symbols: stay below ~16 000 pixels
+				k = 33 + r.Rng.Intn(3)
+			}
+			width = k*w0 + r.Rng.Intn(w0)
+			r.Tally("renderings_wider_than_32_px_per_module")
 		}
 		height := sz.height
 		if width*height > 160000 { // keep a case affordable: tall images only for moderate widths
@@ -992,7 +1002,7 @@ func c03Sweep(r *fw.Rec, s *odUPCEAN, lo, hi, sample int) {
 // ---------------------------------------------------------------------------
 
 func c03(c *fw.Ctx) {
-	c.Rule("per symbology seeded contents from the accepted set of the quantifier (EAN-13 12/13, EAN-8 7/8, UPC-A 11/12, UPC-E 7/8 digits with number system 0/1, incl. all-0, all-9 and zero-rich numbers; Code 39 1..80 alphabet characters and full ASCII whose escaped form fits 80; Code 93 ASCII 0..127 fitting 80 symbol characters; Code 128 ASCII 0..127 up to 80 with digit runs of every parity at start/middle/end, controls, lower case and DEL, and every content of forced code sets A (0..95), B (32..127), C (even digit strings); ITF every length 6..14 and 16..80; Codabar 2..40 data characters bare and with all 16 normal, 16 alternate and lower-case guard pairs) x requested width in {0, natural, natural+k, 2..6 x natural + k}, height 0..80, MARGIN hint absent / default / default+1..40 (int and string form); systematic cases: every single character of each alphabet, every Code 128 digit-run length 1..12 in every context; rejection list: every wrong length, every byte outside the alphabet, every wrong check digit, unpaired/mixed Codabar guards; sweeps: all (thorough) or 100 000 sampled (quick) UPC-E numbers and EAN-8 payloads at height 1. Expected text comes from onedref (independent mod-10, UPC-E expansion, escape tables). distinct = distinct (symbology, content, size) Histories of 4 800 reads of written EAN-8 / UPC-A / EAN-13 / UPC-E symbols on ONE multi-format reader instance (with and without POSSIBLE_FORMATS), every kind directly after every other.")
+	c.Rule("per symbology seeded contents from the accepted set of the quantifier (EAN-13 12/13, EAN-8 7/8, UPC-A 11/12, UPC-E 7/8 digits with number system 0/1, incl. all-0, all-9 and zero-rich numbers; Code 39 1..80 alphabet characters and full ASCII whose escaped form fits 80; Code 93 ASCII 0..127 fitting 80 symbol characters; Code 128 ASCII 0..127 up to 80 with digit runs of every parity at start/middle/end, controls, lower case and DEL, and every content of forced code sets A (0..95), B (32..127), C (even digit strings); ITF every length 6..14 and 16..80; Codabar 2..40 data characters bare and with all 16 normal, 16 alternate and lower-case guard pairs) x requested width in {0, natural, natural+k, 2..6 x natural + k, 33..52 x natural + k}, height 0..80, MARGIN hint absent / default / default+1..40 (int and string form); systematic cases: every single character of each alphabet, every Code 128 digit-run length 1..12 in every context; rejection list: every wrong length, every byte outside the alphabet, every wrong check digit, unpaired/mixed Codabar guards; sweeps: all (thorough) or 100 000 sampled (quick) UPC-E numbers and EAN-8 payloads at height 1. Expected text comes from onedref (independent mod-10, UPC-E expansion, escape tables). distinct = distinct (symbology, content, size) Histories of 4 800 reads of written EAN-8 / UPC-A / EAN-13 / UPC-E symbols on ONE multi-format reader instance (with and without POSSIBLE_FORMATS), every kind directly after every other.")
 	c.Assume("natural width is taken from the writer's own answer to width 0 (workload only, not oracle); images above 160 000 pixels get their height reduced")
 	c.Assume("don't care (DESIGN C03): multi-format reader without POSSIBLE_FORMATS may report a UPC-A symbol as EAN-13 '0'+content; Code 39 is read with the plain reader when the content lies inside the 43-character alphabet and with the extended reader otherwise (the inherent ambiguity of full-ASCII Code 39 is not charged); ITF lengths 2 and 4 (outside the reader's accepted lengths) and Codabar with fewer than 2 data characters are outside the quantifier and only tallied; Code 39 full-ASCII contents whose escaped form exceeds 80 symbol characters, Code 93 contents over 80 symbol characters, Code 128 Latin-1 characters 128..255 (reachable through FNC4 in ISO/IEC 15417), Codabar contents mixing the guard families (A..E) and the size of the returned matrix are not fixed by the statement: observed and tallied only; lower-case Codabar guards may be refused, but must round-trip if accepted; Code 128 FNC escapes U+00F1..U+00F4 are not content and not generated")
 	c.Assume("Codabar canonical form: the default reader returns the data characters without start/stop; with RETURN_CODABAR_START_END the canonical letters A-D (T N * E and lower case are aliases, bare data gets A..A)")
@@ -1345,6 +1355,7 @@ func c03(c *fw.Ctx) {
 	}
 	c.Floor("multi_history_upca_after_an EAN-8", 10000)
 	c.Floor("multi_history_ean8_lookalike_upca_after_ean8", 5000)
+	c.Floor("renderings_wider_than_32_px_per_module", 300)
 	c.Run("cold", func(r *fw.Rec) { c03Cold(r) })
 	c.Floor("cold_start_first_operations", 35)
 	if !q {
